@@ -459,3 +459,7 @@ Fixpoint run_script (bufsz obq obqd : nat) (script : list N) (s : st) : list (li
       let '(s1, res) := step bufsz obq obqd op s in
       obs_row s1 res :: run_script bufsz obq obqd rest s1
   end.
+
+(* a handed-out position (of a rune or of the invalid-UTF-8 error) agrees with its offset *)
+Definition obs_ok (input : str) (o : obs) : bool :=
+  match o with ORune _ _ p => pos_agrees input p | OErr p => pos_agrees input p end.
